@@ -37,7 +37,9 @@ RULE = (
     "NBSP, non-BMP, leading/trailing blanks, 'null', empty) in every value field, (b) real differ scripts, (c) malformed "
     "text (unknown action, wrong arity, bad integer, bad JSON, truncated or empty lines, broken lines, CRLF); json.dumps/loads "
     "vs. the Json model. Oracles on the real code: parse(format(as)) == as, one line per action, "
-    "patch_text(diff_texts(L,R,DiffFormatter),L) == R, xmldiff|xmlpatch commands. Non-trivial = script with >= 2 action "
+    "patch_text(diff_texts(L,R,DiffFormatter),L) == R, xmldiff|xmlpatch commands. The 'diff' formatter is built with every "
+    "normalize value in turn (constructor default, WS_NONE, WS_TAGS, WS_TEXT, WS_BOTH), the API pipeline alternates WS_NONE / WS_TEXT, "
+    "every second CLI row runs without --keep-whitespace (result compared modulo blank text). Non-trivial = script with >= 2 action "
     "types and at least one critical character; distinct by formatted text."
 )
 ASSUMPTIONS = [
@@ -142,10 +144,15 @@ def mutate_text(r, text):
     return "\n".join(lines)
 
 
-def real_format(actions):
+NORMALIZE = (None, 0, 1, 2, 3)  # constructor default, WS_NONE, WS_TAGS, WS_TEXT, WS_BOTH (what the CLI passes without -w)
+
+
+def real_format(actions, normalize=None):
+    """The 'diff' formatter is constructed with every normalize value in turn: the text format does not depend on it."""
     from xmldiff import formatting
 
-    return formatting.DiffFormatter().format(actions, None)
+    f = formatting.DiffFormatter() if normalize is None else formatting.DiffFormatter(normalize=normalize)
+    return f.format(actions, None)
 
 
 ERR = {"ValueError": "valueError", "JSONDecodeError": "valueError", "IndexError": "indexError", "AttributeError": "attributeError", "TypeError": "typeError"}
@@ -224,7 +231,8 @@ def _chunk(seed, lo, hi, extra):
                 acts = [rand_action(r) for _ in range(r.randint(0, 6))]
             c["acts"] = acts
             try:
-                text = real_format(acts)
+                c["normalize"] = NORMALIZE[idx % len(NORMALIZE)]
+                text = real_format(acts, c["normalize"])
                 c["fmt_exc"] = None
             except Exception as e:  # noqa
                 text = ""
@@ -258,7 +266,8 @@ def _chunk(seed, lo, hi, extra):
         acts, text, ptext = c["acts"], c["text"], c["ptext"]
         m_fmt, m_parse = resp[i], resp[i + 1]
         i += 2
-        desc = {"mode": c["mode"], "idx": c["idx"], "actions": xt.show_script(acts)[:12], "text": ptext[:600]}
+        desc = {"mode": c["mode"], "idx": c["idx"], "normalize": c.get("normalize"), "actions": xt.show_script(acts)[:12], "text": ptext[:600]}
+        st.count("formatter_normalize_" + str(c.get("normalize")))
         st.units["U6"] = st.units.get("U6", 0) + 1
         if c["fmt_exc"] is None:
             want = "ok " + xt.enc_str(text)
@@ -288,7 +297,9 @@ def _chunk(seed, lo, hi, extra):
                 st.count("pipeline_skipped_not_reparsable")
                 continue
             try:
-                t = main.diff_texts(lx, rx, diff_options=c["opts"], formatter=formatting.DiffFormatter(normalize=formatting.WS_NONE))
+                # WS_TEXT alone does not make the parser drop blank text, and the text format ignores it
+                t = main.diff_texts(lx, rx, diff_options=c["opts"], formatter=formatting.DiffFormatter(
+                    normalize=formatting.WS_TEXT if c["idx"] % 2 else formatting.WS_NONE))
                 out = main.patch_text(t, lx)
                 got = xt.from_lxml(etree.fromstring(out))
                 want = xt.from_lxml(etree.fromstring(rx))
@@ -323,9 +334,13 @@ def _cli_chunk(seed, lo, hi, extra):
             st.evaluations += 1
             st.units["U10cli"] = st.units.get("U10cli", 0) + 1
             try:
+                # every second case without --keep-whitespace: the parser then drops blank text and the formatter is
+                # built with normalize=WS_BOTH; the result is compared modulo blank text
+                keep = idx % 2 == 0
+                st.count("cli_keep_whitespace" if keep else "cli_default_whitespace")
                 buf = io.StringIO()
                 with contextlib.redirect_stdout(buf):
-                    main.diff_command([lf, rf, "-w"])
+                    main.diff_command([lf, rf, "-w"] if keep else [lf, rf])
                 text = buf.getvalue()
                 assert text.endswith("\n")
                 open(df, "w", encoding="utf-8").write(text[:-1])
@@ -334,9 +349,13 @@ def _cli_chunk(seed, lo, hi, extra):
                     main.patch_command([df, lf])
                 got = xt.from_lxml(etree.fromstring(buf.getvalue()))
                 want = xt.from_lxml(etree.fromstring(rx))
+                if not keep:
+                    import xmlfmt
+
+                    got, want = xmlfmt.drop_blank(got), xmlfmt.drop_blank(want)
                 dd = xt.doc_eq(got, want)
                 if dd:
-                    st.failures.append({"sig": "C02/cli-pipeline-differs", "detail": dd, "left": lx, "right": rx})
+                    st.failures.append({"sig": "C02/cli-pipeline-differs" + ("" if keep else "/default-whitespace"), "detail": dd, "left": lx, "right": rx})
                 elif text.strip():
                     st.nontriv(text)
             except BaseException as e:  # noqa (argparse may SystemExit)
